@@ -141,6 +141,18 @@ def holds (blocks obs : List Nat) : Bool :=
   && isSortedStrict obs
   && (mustTrigger blocks).all obs.contains
 
+/-- Streams delivered over several subscriptions (`first` = what the first subscription
+    delivered, `later` = what later subscriptions would deliver): validity, membership and
+    at-most-once/in-order are required over everything fed; completeness for the first one. -/
+def holdsSegs (first later obs : List Nat) : Bool :=
+  obs.all (fun w => decide (w % freq = 0) && decide (0 < w) && (first ++ later).contains w)
+  && isSortedStrict obs
+  && (mustTrigger first).all obs.contains
+
+/-- With a single subscription `holdsSegs` is `holds`. -/
+theorem holdsSegs_nil (bs obs : List Nat) : holdsSegs bs [] obs = holds bs obs := by
+  simp [holdsSegs, holds]
+
 /-- The monitor accepts the model's own output on a non-trivial stream (non-vacuity). -/
 example : holds [900, 900, 1800, 5, 900, 2700] (watch [900, 900, 1800, 5, 900, 2700]) = true := by
   decide
@@ -149,5 +161,8 @@ example : watch [900, 900, 1800, 5, 900, 2700] = [900, 1800, 2700] := by decide
 example : holds [900, 900] [900, 900] = false := by decide
 example : holds [1800, 900] [900, 1800] = true := by decide  -- as a *set* this is fine…
 example : holds [1800] [] = false := by decide
+/-- a window started again by a second subscription is rejected -/
+example : holdsSegs [899, 900, 901] [899, 900] [900, 900] = false := by decide
+example : holdsSegs [899, 900, 901] [899, 900] [900] = true := by decide
 
 end KeepVerif.C23
